@@ -73,6 +73,13 @@ func (db *DB) openMemTables(opt Options) error {
 			flags = os.O_RDONLY
 		}
 		mt, err := db.openMemTable(fid, flags)
+		if err == z.NewFile {
+			// The file was empty: a crash hit logFile.Delete between truncating the file to
+			// zero and unlinking it (or newMemTable before the file was sized). There is
+			// nothing to replay; drop it, which also removes the file.
+			mt.DecrRef()
+			continue
+		}
 		if err != nil {
 			return y.Wrapf(err, "while opening fid: %d", fid)
 		}
